@@ -1089,7 +1089,12 @@ pub fn run(ctx: &mut Ctx, replay: Option<&str>) {
 fn wide_issuer_history(ctx: &mut Ctx) {
     let (per, times) = if ctx.tier == Tier::Quick { (260usize, 8usize) } else { (700, 8) };
     let mut r = ctx.rng.fork(0x3_0000_0000);
-    let claims = gen_wide_claims(&mut r, per, now());
+    let mut claims = gen_wide_claims(&mut r, per, now());
+    // ... with a hundred and fifty small objects (each takes decoys when they are on) and a large string value
+    if let Some(m) = claims.as_object_mut() {
+        m.insert("records".into(), Value::Array((0..150).map(|i| json!({"id": i, "tag": {"t": i % 5}})).collect()));
+        m.insert("portrait".into(), json!("Zm9v".repeat(3100)));
+    }
     let mk = |decoy: bool, fmt: Fmt| IssueArgs { claims: claims.clone(), strategy: Strategy::All, holder: None, decoy, fmt, key: KeyId::Hmac1, alg: Some("HS256".into()), queue: None };
     let calls: Vec<IssueArgs> = (0..times).map(|k| mk(k % 2 == 1, if k % 3 == 0 { Fmt::Json } else { Fmt::Compact })).collect();
     let case = json!({"wide_issuer_history": {"members": per, "calls_on_one_instance": times, "strategy": "all", "the same claims every time": true}});
@@ -1127,6 +1132,45 @@ fn wide_issuer_history(ctx: &mut Ctx) {
         for d in all_digests(&parts) {
             if let Some(j) = digs.insert(d.clone(), k) {
                 problems.push(format!("call {}: the digest {} of call {} appears again", k, d, j));
+            }
+        }
+        // decoys as asked for by THIS call: every object carries one when on, none when off
+        {
+            let real: HashSet<String> = parts.disclosures.iter().map(|d| hash(d)).collect();
+            fn images(v: &Value, out: &mut Vec<Vec<String>>) {
+                match v {
+                    Value::Object(m) => {
+                        if m.len() == 1 && m.get("...").map_or(false, Value::is_string) {
+                            return;
+                        }
+                        out.push(m.get("_sd").and_then(Value::as_array).map(|a| a.iter().filter_map(|d| d.as_str().map(String::from)).collect()).unwrap_or_default());
+                        for (k, x) in m {
+                            if k != "_sd" {
+                                images(x, out);
+                            }
+                        }
+                    }
+                    Value::Array(a) => a.iter().for_each(|x| images(x, out)),
+                    _ => {}
+                }
+            }
+            let mut imgs = vec![];
+            if let Some(pl) = parts.payload() {
+                images(&pl, &mut imgs);
+            }
+            for d in &parts.disclosures {
+                if let Some(Value::Array(arr)) = decode_disclosure(d) {
+                    if let Some(v) = arr.last() {
+                        images(v, &mut imgs);
+                    }
+                }
+            }
+            let with_decoy = imgs.iter().filter(|l| l.iter().any(|d| !real.contains(d))).count();
+            if a.decoy && with_decoy != imgs.len() {
+                problems.push(format!("call {}: decoys requested, yet {} of {} objects carry none (a fresh issuer gives every object its decoys)", k, imgs.len() - with_decoy, imgs.len()));
+            }
+            if !a.decoy && with_decoy != 0 {
+                problems.push(format!("call {}: no decoys requested, yet {} objects carry digests that match no disclosure", k, with_decoy));
             }
         }
         let v = verify(&VerifyArgs { input: res.out.ok().cloned().unwrap_or_default(), fmt: a.fmt, resolver: Resolver::always(a.key), aud: None, nonce: None });
